@@ -8,7 +8,9 @@ every single-byte substitution at every offset, every truncation length, every h
 with invalid UTF-8 / invalid base64, unknown and ack codes in both encodings, gram numbers and
 counts beyond the legal range (unsigned, and properly signed by the key holder), grams signed by a
 foreign key, grams signed with a rotated-away key of a transferable (D) vid or for a D/E vid the
-receiver has no key for, unsigned grams sent to a receiver that requires signatures, random datagrams - and
+receiver has no key for, "warm receiver" histories (a receiver that already delivered genuine memos gets
+altered replays of the accepted grams with their original vid+signature, and memos of a second
+signer re-using the delivered memo ids, alone and mixed with replays), unsigned grams sent to a receiver that requires signatures, random datagrams - and
 handed to a real receiver `Memoer`, alone and mixed with the valid rest of the memo.
 
   S  (safety)        no call of serviceAllRx()/serviceAllRxOnce() raises, whatever was received;
@@ -48,7 +50,9 @@ ASSUMPTIONS = [
 ]
 NSHARDS = {"quick": 16, "thorough": 16}
 TIMEOUT_S = {"quick": 240, "thorough": 1800}
-REQUIRE = {"rotation_old_key_rejected": 12, "rotation_current_key_delivered": 24,
+REQUIRE = {"warm_receivers": 1500, "warm_hostile_feeds": 3000, "warm_altered_replays_rejected": 1200,
+           "midreuse_delivered_attributed_to_second_signer": 20, "midreuse_stale_gram_not_fused": 6,
+           "rotation_old_key_rejected": 12, "rotation_current_key_delivered": 24,
            "unknown_transferable_vid_rejected": 12, "unknown_digest_vid_rejected": 6, "faults_injected": 20000, "fault_sites": 900, "fault_kinds": 8, "rejected_by_verify": 3000,
            "rejected_by_pick_other": 1000, "controls_delivered": 200, "authentic_checks": 10000,
            "dropped_state_checks": 5000}
@@ -83,8 +87,8 @@ def seed_cfgs(tier):
     return out
 
 
-def build_seed(cfg):
-    """Genuine grams of a 3-gram memo through the real transmit path: (text, vid, grams, gram codes)."""
+def build_seed(cfg, n=3, tag="genuine-memo"):
+    """Genuine grams of an n-gram memo through the real transmit path: (text, vid, grams, gram codes)."""
     code, curt = cfg["code"], cfg["curt"]
     base = Memoer(code=code, curt=curt, size=1).size
     size = base + 5
@@ -92,8 +96,8 @@ def build_seed(cfg):
         if ms.layout(code, curt, base + 5 + d)[0] != "fail":
             size = base + 5 + d
             break
-    nbytes = ms.nbytes_for(3, code, curt, size, slack=1)
-    text = ms.make_text("genuine-memo", nbytes or 24, random.Random(5))
+    nbytes = ms.nbytes_for(n, code, curt, size, slack=1)
+    text = ms.make_text(tag, nbytes or 24, random.Random(5))
     ms.reset_mids()                     # layout probing above consumed memo ids on its first (uncached) run
     grams, tx = ms.render(text, code, curt, size, cfg["signer"], dst="rx")
     vid = ms.signer(cfg["signer"])[0] if cfg["signer"] is not None else None
@@ -143,6 +147,32 @@ def cases(tier, seed, shard, nshards):
                 if i % nshards == shard:
                     yield {"kind": what, "cfg": cfg, "authic": authic}
                 i += 1
+    # warm receivers: the receiver has already delivered genuine signed memos when the hostile datagrams arrive
+    for code in ms.AUTH_ZERO if not quick else ["bAAC"]:
+        for curt in (False, True):
+            cfg = {"code": code, "curt": curt, "signer": GENUINE}
+            for n in (1, 2, 3):
+                ms.reset_mids()
+                try:
+                    _t, _v, grams, gcodes, _tx = build_seed(cfg, n, "warm-memo")
+                except Exception:
+                    grams, gcodes = [], []
+                for authic in ((True,) if quick else (True, False)):
+                    for gi, g in enumerate(grams):
+                        labels = ms.field_map(gcodes[gi], curt, len(g))
+                        offs = [o for o, l in enumerate(labels) if quick and l in ("code", "neck", "mid", "body")
+                                or not quick]
+                        step = 12
+                        for a in range(0, len(offs), step):
+                            if i % nshards == shard:
+                                yield {"kind": "warm-subst", "cfg": cfg, "authic": authic, "n": n, "gram": gi,
+                                       "offsets": offs[a:a + step], "nvalues": 3 if quick else 12,
+                                       "second": (a // step) % 2 == 1}
+                            i += 1
+                    for what in ("warm-edit", "warm-reuse"):
+                        if i % nshards == shard:
+                            yield {"kind": what, "cfg": cfg, "authic": authic, "n": n}
+                        i += 1
     # key rotation / unknown signers: who is "the claimed signer" for transferable (D) and digest (E) vids
     for code in ms.AUTH_ZERO:
         for curt in (False, True):
@@ -349,6 +379,8 @@ def run_case(case, ctx):
         return run_random(case, ctx)
     if kind == "rotation":
         return run_rotation(case, ctx)
+    if kind.startswith("warm-"):
+        return run_warm(case, ctx)
     cfg, authic = case["cfg"], case["authic"]
     code, curt = cfg["code"], cfg["curt"]
     signed = cfg["signer"] is not None
@@ -504,6 +536,174 @@ def run_neck(ctx, cfg, authic, authentic, text, vid, grams, gcodes):
             sc.feed(z, "fault", "crafter")
         finally:
             sc.close()
+
+
+SECOND_B, SECOND_D = ATTACKER, 4        # second signer M: own key pair, B vid (self-certifying) resp. D vid (in keep)
+
+
+def gram_mid(gram, gcode, curt):
+    from base64 import urlsafe_b64encode as enc
+    labels = ms.field_map(gcode, curt, len(gram))
+    midb = bytes(b for b, l in zip(gram, labels) if l == "mid")
+    return (enc(midb) if curt else midb).decode()
+
+
+def run_warm(case, ctx):
+    """State across memos: ONE receiver first delivers genuine signed memos of V, then gets hostile datagrams that
+    re-use what it has seen: V's accepted grams with altered bytes (original vid + signature), V's memo ids re-used
+    by a second signer M, M's grams mixed with replays of V's old grams.  Identical replays of V's grams are not
+    faults (and a full identical replay delivering V's memo again is the recorded C20 finding: same text, same vid,
+    so it passes this oracle by construction)."""
+    kind, cfg, authic, n = case["kind"], case["cfg"], case["authic"], case["n"]
+    code, curt = cfg["code"], cfg["curt"]
+    ncode = Memoer.Pairs[code]
+    keep = ms.keep_of([0, 1, 2, SECOND_D])
+    ms.reset_mids()
+    try:
+        text, vid, grams, gcodes, _tx = build_seed(cfg, n, "warm-memo")
+        ms.FAKE_UUID.salt = b"second"
+        cfg2 = {"code": code, "curt": not curt, "signer": GENUINE}
+        text2, _v2, grams2, gcodes2, _tx2 = build_seed(cfg2, 2, "warm-memo-two")
+    except Exception as ex:
+        ctx.violation(ms.escape_key(ex, "tx-escape"), f"could not produce warm seeds for {cfg}: {ex!r}")
+        return
+    mid = gram_mid(grams[0], gcodes[0], curt)
+    base_auth = {(text, vid), (text2, vid)}
+
+    def warm(what, extra=(), second=False):
+        """Fresh receiver that has delivered V's memo(s); None when the control failed."""
+        sc = Scenario(ctx, authic, base_auth | set(extra), what, keep=keep)
+        for g in grams + (grams2 if second else []):
+            if not sc.feed(g, "genuine", "V-src"):
+                sc.close()
+                return None
+        got = [(t, v) for t, _s, v in sc.rx.inbox]
+        want = [(text, vid)] + ([(text2, vid)] if second else [])
+        if got != want:
+            ctx.violation("control:genuine-memo-not-delivered", f"warm-up of {what}: receiver delivered {got!r}")
+            sc.close()
+            return None
+        ctx.count("warm_receivers")
+        return sc
+
+    def hostile(sc, datagrams):
+        for g in datagrams:
+            ctx.count("warm_hostile_feeds")
+            if not sc.feed(g, "fault", "attacker"):
+                return False
+        return True
+
+    def nothing_new(sc, base):
+        """only V's genuine memo(s) (possibly again: identical replays) may be in the inbox"""
+        return all((t, v) in base_auth for t, _s, v in sc.rx.inbox)
+
+    if kind == "warm-subst":
+        gi = case["gram"]
+        for off in case["offsets"]:
+            orig = grams[gi][off]
+            vals = [orig ^ 0x01, orig ^ 0x20, (orig + 1) % 256, 0x41, 0x5F, 0x62, 0x30, 0x7A, 0x2D, 0x00, 0x80, 0xFF]
+            vals = [v for v in dict.fromkeys(vals) if v != orig][:case["nvalues"]]
+            for k, v in enumerate(vals):
+                bad = bytearray(grams[gi])
+                bad[off] = v
+                bad = bytes(bad)
+                ctx.count("faults_injected")
+                ctx.seen("fault_sites", [code, curt, "warm", n, gi, off])
+                sc = warm(f"warm-subst gram {gi} offset {off}: 0x{orig:02x}->0x{v:02x} replayed with its original vid and "
+                          f"signature after the memo was delivered (code={code} curt={curt} n={n})",
+                          second=case["second"])
+                if sc is None:
+                    return
+                try:
+                    others = [g for j, g in enumerate(grams) if j != gi]
+                    seq = [bad] + others if (off + k) % 2 == 0 else (others[:1] + [bad] + others[1:])
+                    if hostile(sc, seq) and nothing_new(sc, base_auth):
+                        ctx.count("warm_altered_replays_rejected")
+                finally:
+                    sc.close()
+        ctx.nontrivial([kind, code, curt, authic, n, gi, case["offsets"][:1]])
+        return
+
+    if kind == "warm-edit":
+        edits = []
+        lab0 = ms.field_map(gcodes[0], curt, len(grams[0]))
+        for cnt in (1, max(1, n - 1), n + 1):
+            if cnt != n:
+                z = set_field(grams[0], lab0, "neck", neck_bytes(cnt, curt))
+                edits.append((f"count {n}->{cnt} on the delivered zeroth gram", [z] + grams[1:cnt]))
+        fresh = Memoer.makeMID()
+        from base64 import urlsafe_b64decode as dec
+        for gi in range(n):
+            lab = ms.field_map(gcodes[gi], curt, len(grams[gi]))
+            edits.append((f"body of gram {gi} replaced", [set_field(grams[gi], lab, "body", b"FORGED!")] +
+                          [g for j, g in enumerate(grams) if j != gi]))
+            edits.append((f"body of gram {gi} replaced, fed after the others",
+                          [g for j, g in enumerate(grams) if j != gi] + [set_field(grams[gi], lab, "body", b"FORGED!")]))
+            if gi > 0:
+                for newn in (0, gi + 1 if gi + 1 < n else gi - 1, n):
+                    if newn != gi:
+                        moved = set_field(grams[gi], lab, "neck", neck_bytes(newn, curt))
+                        edits.append((f"gram number {gi}->{newn}", [grams[0], moved] +
+                                      [g for j, g in enumerate(grams) if j not in (0, gi, newn)]))
+        # the whole memo under a fresh memo id with a forged body in one gram (original vid + signatures)
+        midfill = dec(fresh.encode()) if curt else fresh.encode()
+        moved = []
+        for gi in range(n):
+            lab = ms.field_map(gcodes[gi], curt, len(grams[gi]))
+            g = set_field(grams[gi], lab, "mid", midfill)
+            if gi == n - 1:
+                g = set_field(g, lab, "body", b"FORGED!")
+            moved.append(g)
+        edits.append(("all grams moved to a fresh memo id, last body forged", moved))
+        for what, seq in edits:
+            ctx.count("faults_injected")
+            sc = warm(f"warm-edit {what} (code={code} curt={curt} n={n})", second=True)
+            if sc is None:
+                return
+            try:
+                if hostile(sc, seq) and nothing_new(sc, base_auth):
+                    ctx.count("warm_altered_replays_rejected")
+            finally:
+                sc.close()
+        ctx.nontrivial([kind, code, curt, authic, n])
+        return
+
+    # warm-reuse: a second signer M re-uses the memo id of V's delivered memo
+    for who in (SECOND_B, SECOND_D):
+        mvid = ms.signer(who)[0]
+        one = "<M-one-gram-memo>"
+        m_one = craft(who, code, curt, 1, mid, one.encode())
+        m0 = craft(who, code, curt, 2, mid, b"<M-two-")
+        m1 = craft(who, ncode, curt, 1, mid, b"gram-memo>")
+        two = "<M-two-gram-memo>"
+        plans = [("M's one-gram memo under V's delivered memo id", [m_one], {(one, mvid)}, [(one, mvid)]),
+                 ("M's two-gram memo under V's delivered memo id", [m0, m1], {(two, mvid)}, [(two, mvid)])]
+        if n >= 2:
+            plans += [
+                ("M's zeroth gram, then a replay of V's old gram 1, then M's gram 1", [m0, grams[1], m1],
+                 {(two, mvid)}, [(two, mvid)]),
+                ("a replay of V's old gram 1, then M's zeroth gram and gram 1", [grams[1], m0, m1],
+                 {(two, mvid)}, None),
+                ("M's zeroth gram (count 2) and only replays of V's old gram 1", [m0, grams[1], grams[1]],
+                 {(two, mvid)}, []),
+            ]
+        for what, seq, extra, expect in plans:
+            ctx.count("faults_injected")
+            sc = warm(f"warm-reuse {what}; M has a {mvid[0]} vid (code={code} curt={curt} n={n})", extra=extra,
+                      second=(who == SECOND_D))
+            if sc is None:
+                return
+            try:
+                if not hostile(sc, seq):
+                    continue
+                new = [(t, v) for t, _s, v in sc.rx.inbox if (t, v) not in base_auth]
+                if authic and expect is not None and new == expect and expect:
+                    ctx.count("midreuse_delivered_attributed_to_second_signer")
+                elif authic and expect == [] and not new:
+                    ctx.count("midreuse_stale_gram_not_fused")
+            finally:
+                sc.close()
+    ctx.nontrivial([kind, code, curt, authic, n])
 
 
 OLDKEY, NEWKEY, DIGEST = 22, 25, 23      # memoshim.signer indices: 22 and 25 have D vids, 23 an E vid
